@@ -58,7 +58,8 @@ def run_pass(spec, kinds, exc_is_violation=False, clock=False, nontrivial=None):
                 else:
                     d = r.detail
                     sh.violation("lexer_exception", d, {"src": src, "mode": "lex"},
-                                 {"exc": d[0], "where": d[1], "len": len(src)})
+                                 {"exc": d[0], "where": d[1], "len": len(src), "max_splice_run": max_splice_run(src),
+                                  "max_open_quote_run": max_open_quote_run(src)})
         for fl in s.lex_fail:
             if fl[0] in kinds:
                 sh.violation(fl[0], fl[1:2], {"src": src, "mode": "lex"}, {"fail": fl, "spliced_inside": _spliced_inside(src, fl)})
@@ -69,3 +70,37 @@ def run_pass(spec, kinds, exc_is_violation=False, clock=False, nontrivial=None):
 
 def _spliced_inside(src, fl):
     return ("\\\n" in src) or ("??/\n" in src)
+
+
+def max_splice_run(src):
+    """longest run of consecutive line splices"""
+    best = run = 0
+    i = 0
+    n = len(src)
+    while i < n:
+        if src.startswith("\\\n", i):
+            run += 1
+            i += 2
+        elif src.startswith("??/\n", i):
+            run += 1
+            i += 4
+        else:
+            run = 0
+            i += 1
+        best = max(best, run)
+    return best
+
+
+def max_open_quote_run(src):
+    """longest stretch after a single quote without another single quote or a newline"""
+    best = 0
+    i = src.find("'")
+    while i != -1:
+        j = i + 1
+        while j < len(src) and src[j] not in "'\n":
+            j += 1
+        best = max(best, j - i - 1)
+        i = src.find("'", j + 1 if j < len(src) and src[j] == "'" else j)
+        if i == -1:
+            break
+    return best
